@@ -244,6 +244,19 @@ def b_len(it, x):
         return ops.str_len(ctx, x)
     if isinstance(x, SBytes):
         return x.ln
+    if isinstance(x, (list, tuple)) and any(isinstance(e, Chunk) for e in x):
+        t = I(0)
+        for e in x:
+            if isinstance(e, Chunk):
+                if e.length is not None:
+                    t = t + zint(e.length)
+                else:
+                    ln = seq_len(e.term)
+                    ctx.assume(ln >= 0)
+                    t = t + ln
+            else:
+                t = t + 1
+        return simp(t)
     if isinstance(x, (list, tuple, dict, set, bytes, bytearray, memoryview, range, frozenset)):
         return len(x)
     if isinstance(x, LazySeq):
@@ -660,42 +673,12 @@ class TrueDiv:
 
 
 # ------------------------------------------------------------------ json (assumed contracts)
-JsonSort = z3.DeclareSort('Json')
+from .seq import Val as JsonSort, val_term, Chunk, list_term, seq_len
 
 
 def json_term_of(it, v):
-    """a Json term standing for a Python value built from dict/list/str/int (assumed: json.dumps is a
-    function of the value, injective up to dict key order)"""
-    ctx = it.ctx
-    if isinstance(v, OpaqueVal) and v.tag == 'json':
-        return v.term
-    if v is None:
-        return ufun('j_null', JsonSort)()
-    if isinstance(v, bool):
-        return ufun('j_bool', z3.BoolSort(), JsonSort)(z3.BoolVal(v))
-    if is_symbool(v):
-        return ufun('j_bool', z3.BoolSort(), JsonSort)(v)
-    if is_intlike(v):
-        return ufun('j_int', z3.IntSort(), JsonSort)(zint(v))
-    if is_str(v) or isinstance(v, Choice):
-        return ufun('j_str', PyStr, JsonSort)(str_term(v))
-    if isinstance(v, (list, tuple)):
-        t = ufun('j_nil', JsonSort)()
-        for x in reversed(list(v)):
-            t = ufun('j_cons', JsonSort, JsonSort, JsonSort)(json_term_of(it, x), t)
-        return ufun('j_list', JsonSort, JsonSort)(t)
-    if isinstance(v, dict):
-        t = ufun('j_nil', JsonSort)()
-        for k, x in reversed(list(v.items())):
-            if not is_str(k):
-                k = ops.to_str(ctx, k)
-            t = ufun('j_kv', PyStr, JsonSort, JsonSort, JsonSort)(str_term(k), json_term_of(it, x), t)
-        return ufun('j_dict', JsonSort, JsonSort)(t)
-    if isinstance(v, LazySeq):
-        return ufun('j_lazyseq_' + v.name, z3.IntSort(), JsonSort)(zint(v.length))
-    if isinstance(v, float):
-        return ufun('j_float', PyStr, JsonSort)(lit(repr(v)))
-    raise Unsupported("json value of %s" % type(v).__name__)
+    """a Val term standing for a Python value (assumed: json.dumps is a function of the value)"""
+    return val_term(v)
 
 
 def m_json_dumps(it, v, *a, **kw):
